@@ -238,3 +238,13 @@ package sweep
 //@   ensures forallq(j, 0, len(b.inputs), storedRate(b.inputs[j].params.StartingFeeRate.isSome, b.inputs[j].params.StartingFeeRate.some) <= storedRate(result.isSome, result.some))
 //@   ensures result.isSome ==> existsq(j, 0, len(b.inputs), b.inputs[j].params.StartingFeeRate.isSome && b.inputs[j].params.StartingFeeRate.some == result.some)
 //@   modifies nothing
+//@
+//@ // ---- the bump request carries the configured maximum fee rate in the unit the publisher compares in (sat/kw)
+//@ func (s *UtxoSweeper) sweep
+//@   props C18
+//@   loop * havoc
+//@   site store BumpRequest.MaxFeeRate: assert value == ret(FeePerKWeight)
+//@   site call FeePerKWeight: assert arg(0) == s.cfg.MaxFeeRate
+//@   site store BumpRequest.Budget: assert value == ret(Budget)
+//@   site store BumpRequest.DeadlineHeight: assert value == ret(DeadlineHeight)
+//@   site store BumpRequest.StartingFeeRate: assert value == ret(StartingFeeRate)
